@@ -35,6 +35,6 @@ SimNext ==
      \/ RE(1..3) = 1 /\ Disconnect /\ Step(Rec("Disconnect", "", "", 0, FALSE))
      \/ Iter /\ Step(Rec("Iter", "", "", 0, FALSE))
 SimSpec == Init /\ [][SimNext]_vars
-Cfg == [mn |-> MaxNum, conflicts |-> Conflicts, docs |-> Docs, writers |-> Writers]
+Cfg == [mn |-> MaxNum, conflicts |-> Conflicts, docs |-> Docs, writers |-> Writers, base |-> Base, clients |-> Clients]
 BehaviourExport == (Len(hist) = MaxSteps) => PrintT(<<"BEH", ToJson([cfg |-> Cfg, steps |-> hist])>>)
 =============================================================================
